@@ -93,6 +93,12 @@ def template_histories(rng):
             evs = [('recv', {'kind': 'newer', 'pick': [0.9] * 6, 'delta': [2] * 6}), ('idle', 500), ('pub-recv', older, k_), ('idle', 500),
                    ('recv', older), ('idle', 500), ('recv', older), ('idle', 500)]
             out.append({'nodes': nn, 'events': evs, 'last_used': rng.choice([3, 7]), 'publish_in_callback': False, 'template': True})
+    # the same with a vector that is NOT outdated (a peer's periodic announcement in the steady state, equal in every entry it lists and
+    # silent about this node): no suppression period begins, the publication is announced promptly
+    steady = {'kind': 'equal', 'pick': [0.9] * 6, 'delta': [1] * 6, 'unknown': None}
+    for k_ in range(-8, 5):
+        evs = [('recv', {'kind': 'newer', 'pick': [0.9] * 6, 'delta': [2] * 6}), ('idle', 500), ('pub-recv', steady, k_), ('idle', 500)]
+        out.append({'nodes': 1 + k_ % 2, 'events': evs, 'last_used': rng.choice([3, 7]), 'publish_in_callback': False, 'template': True})
     for nn in (1, 3):
         evs = [('recv', {'kind': 'newer', 'pick': [0.9] * 6, 'delta': [2] * 6}), ('advance', 'at'), ('recv', older), ('idle', 500), ('recv', older), ('idle', 500),
                ('advance', 'at'), ('recv', older), ('idle', 500)]
